@@ -435,51 +435,49 @@ theorem out_of_range_duration_rejected (res : Nat) (acc : Int) (s : Str) (v : R)
   simp only [hne, Bool.false_eq_true, ↓reduceIte, hv, hu, hr]
 
 /-- `durAdd` refuses exactly when the count is outside the open interval `(−2⁶³, 2⁶³)` (this also
-    catches NaN: both comparisons are then false) or the sum leaves the `int64` range. -/
-theorem durAdd_none_iff (u res : Nat) (v : R) (acc : Int) :
-    durAdd u res v acc = none ↔
-      ¬ ((DurScalar.ofInt repMin : R) < durCount u res v ∧ durCount u res v < (DurScalar.ofInt (repMax + 1) : R)) ∨
-      ¬ (repMin ≤ acc + chronoRound u res v ∧ acc + chronoRound u res v ≤ repMax) := by
+    catches NaN: both comparisons are then false) or the sum would leave the `int64` range; and
+    when it accepts, the new sum is the old one plus the rounded component, inside the range. -/
+theorem durAdd_spec (u res : Nat) (v : R) (acc : Int) (hacc : repMin ≤ acc ∧ acc ≤ repMax) :
+    (durAdd u res v acc = none ↔
+      ¬ ((DurScalar.ofInt repMin : R) < durCount u res v ∧
+          durCount u res v < (DurScalar.ofInt (repMax + 1) : R)) ∨
+      ¬ (repMin ≤ acc + chronoRound u res v ∧ acc + chronoRound u res v ≤ repMax)) ∧
+    (∀ a, durAdd u res v acc = some a →
+      a = acc + chronoRound u res v ∧ repMin ≤ a ∧ a ≤ repMax) := by
   unfold durAdd
   simp only [Bool.and_eq_true, decide_eq_true_eq]
-  by_cases hc : (DurScalar.ofInt repMin : R) < durCount u res v ∧ durCount u res v < (DurScalar.ofInt (repMax + 1) : R)
+  by_cases hc : (DurScalar.ofInt repMin : R) < durCount u res v ∧
+      durCount u res v < (DurScalar.ofInt (repMax + 1) : R)
   · simp only [hc, and_self, ↓reduceIte, not_true_eq_false, false_or]
     by_cases h0 : 0 ≤ chronoRound u res v
     · simp only [h0, ↓reduceIte, decide_eq_true_eq]
       by_cases h1 : acc ≤ repMax - chronoRound u res v
-      · simp only [h1, ↓reduceIte, reduceCtorEq, false_iff, not_not]
-        -- the lower bound needs the caller's invariant only in one direction; state it via omega
-        constructor
-        · sorry_placeholder
-        · omega
-      · simp only [h1, ↓reduceIte, true_iff]; omega
+      · simp only [h1, ↓reduceIte, reduceCtorEq, false_iff, not_not, Option.some.injEq]
+        exact ⟨by omega, fun a ha => by omega⟩
+      · simp only [h1, ↓reduceIte, true_iff, reduceCtorEq, false_imp_iff, implies_true, and_true]
+        omega
     · simp only [h0, ↓reduceIte, decide_eq_true_eq]
       by_cases h1 : repMin - chronoRound u res v ≤ acc
-      · simp only [h1, ↓reduceIte, reduceCtorEq, false_iff, not_not]
-        constructor
-        · omega
-        · sorry_placeholder
-      · simp only [h1, ↓reduceIte, true_iff]; omega
+      · simp only [h1, ↓reduceIte, reduceCtorEq, false_iff, not_not, Option.some.injEq]
+        exact ⟨by omega, fun a ha => by omega⟩
+      · simp only [h1, ↓reduceIte, true_iff, reduceCtorEq, false_imp_iff, implies_true, and_true]
+        omega
   · simp [hc]
 
 /-! ### No half-written structure -/
 
-/-- Exceptions that the code raises *after* it has already written to the addressed leaf. -/
-def Err.afterWrite : Err → Bool
-  | .numSuffix | .durValue | .durUnits | .fuel => true
-  | _ => false
-
+/-- A leaf setter that throws has not written: every setter parses into a local and assigns the
+    field as its last statement. -/
 theorem setLeaf_no_write (lk : Kind) (rem value : Str) (w : Option (Leaf R)) (e : Err)
-    (hv : lk ≠ .vec) (h : setLeaf env cfg pr lk rem value = (w, some e)) (he : Err.afterWrite e = false) :
-    w = none := by
+    (h : setLeaf env cfg pr lk rem value = (w, some e)) : w = none := by
   cases lk with
-  | vec => exact absurd rfl hv
+  | vec =>
+    simp only [setLeaf] at h
+    split at h <;> simp_all
   | dur res =>
     simp only [setLeaf] at h
-    split at h
-    · simp only [Prod.mk.injEq] at h; exact h.1.symm
-    · simp only [Prod.mk.injEq] at h
-      rcases parseDuration_err cfg pr res _ _ _ e h.2 with h' | h' | h' <;> simp [h', Err.afterWrite] at he
+    repeat' split at h
+    all_goals simp_all
   | bool =>
     simp only [setLeaf] at h
     repeat' split at h
@@ -487,13 +485,11 @@ theorem setLeaf_no_write (lk : Kind) (rem value : Str) (w : Option (Leaf R)) (e 
   | int lo hi =>
     simp only [setLeaf] at h
     repeat' split at h
-    all_goals (simp only [Prod.mk.injEq, Option.some.injEq] at h; obtain ⟨h1, h2⟩ := h)
-    all_goals first | exact h1.symm | (subst h2; simp [Err.afterWrite] at he) | simp at h2
+    all_goals simp_all
   | real =>
     simp only [setLeaf] at h
     repeat' split at h
-    all_goals (simp only [Prod.mk.injEq, Option.some.injEq] at h; obtain ⟨h1, h2⟩ := h)
-    all_goals first | exact h1.symm | (subst h2; simp [Err.afterWrite] at he) | simp at h2
+    all_goals simp_all
   | enum n =>
     simp only [setLeaf] at h
     repeat' split at h
@@ -501,17 +497,11 @@ theorem setLeaf_no_write (lk : Kind) (rem value : Str) (w : Option (Leaf R)) (e 
   | struct n => simp only [setLeaf, Prod.mk.injEq] at h; exact h.1.symm
   | other n => simp only [setLeaf, Prod.mk.injEq] at h; exact h.1.symm
 
-/-- **No half-write.**  If `set_param` throws `e`, the store equals its pre-state —
-    under the two hypotheses the code forces:
-      * `e` is not one of the exceptions raised after a write (`Invalid suffix` after
-        `from_chars` stored the number; a duration error after `t = {}` / a partial sum);
-      * the addressed object is not a vec (resized and filled element by element).
-    Both excluded cases are run on the real code by `checks/c18.py` (they do leave a modified
-    object behind: known findings `C18:half-write:numeric-suffix|duration|vec`). -/
+/-- **No half-write.**  If `set_param` throws — whatever the exception, whatever the kind of the
+    addressed object (scalar, duration, vec, nested struct member) — the store equals its
+    pre-state.  No side condition. -/
 theorem no_half_write (fuel : Nat) (k : Kind) (path : Path) (key value : Str) (st st' : Store R) (e : Err)
-    (h : setParam env cfg pr fuel k path key value st = (st', some e))
-    (he : Err.afterWrite e = false)
-    (hv : ∀ p rem, addressed env fuel k path key ≠ some (p, .vec, rem)) : st' = st := by
+    (h : setParam env cfg pr fuel k path key value st = (st', some e)) : st' = st := by
   cases ha : addressed env fuel k path key with
   | none =>
     have := (setParam_of_not_addressed env cfg pr fuel k path key value st ha).1
@@ -519,14 +509,13 @@ theorem no_half_write (fuel : Nat) (k : Kind) (path : Path) (key value : Str) (s
   | some t =>
     obtain ⟨p, lk, rem⟩ := t
     rw [setParam_of_addressed env cfg pr fuel k path key value st p lk rem ha] at h
-    have hlk : lk ≠ .vec := fun hc => hv p rem (by rw [ha, hc])
     rcases hw : setLeaf env cfg pr lk rem value with ⟨w, e'⟩
     rw [hw] at h
     cases w with
     | none => simp only [applyLeaf, Prod.mk.injEq] at h; exact h.1.symm
     | some l =>
       simp only [applyLeaf, Prod.mk.injEq] at h
-      have := setLeaf_no_write env cfg pr lk rem value (some l) e hlk (by rw [hw, h.2]) he
+      have := setLeaf_no_write env cfg pr lk rem value (some l) e (by rw [hw, h.2])
       simp at this
 
 /-! ### `set_params`: prefix filter, `used` counters, state at a throw -/
@@ -593,22 +582,17 @@ theorem used_le (fuel : Nat) (top : Kind) (pfx : Str) (opts : List Str) (st : St
       simp only [hp', ↓reduceIte]
       exact List.Forall₂.cons (Or.inl rfl) (ih st)
 
-/-- **State at a throw.**  If `set_params` throws `e` (not an after-write exception, no vec
-    addressed), the object is exactly what the options *before* the failing one made it: there
-    is a split `opts = before ++ failing :: after` such that applying `before` alone succeeds and
-    yields the very same store. -/
+/-- **State at a throw.**  If `set_params` throws, the object is exactly what the options
+    *before* the failing one made it: there is a split `opts = before ++ failing :: after` such
+    that applying `before` alone succeeds and yields the very same store.  No side condition. -/
 theorem set_params_no_half_write (fuel : Nat) (top : Kind) (pfx : Str) (opts : List Str) (st st' : Store R)
     (u : List Nat) (e : Err)
-    (h : setParams env cfg pr fuel top pfx opts st = (st', u, some e))
-    (he : Err.afterWrite e = false)
-    (hv : ∀ kv ∈ opts, ∀ p rem, addressed env fuel top [] (optKey kv) ≠ some (p, .vec, rem)) :
+    (h : setParams env cfg pr fuel top pfx opts st = (st', u, some e)) :
     ∃ before failing after u', opts = before ++ failing :: after ∧
       setParams env cfg pr fuel top pfx before st = (st', u', none) := by
   induction opts generalizing st u with
   | nil => simp [setParams] at h
   | cons kv rest ih =>
-    have hv' : ∀ kv' ∈ rest, ∀ p rem, addressed env fuel top [] (optKey kv') ≠ some (p, .vec, rem) :=
-      fun kv' hk => hv kv' (by simp [hk])
     simp only [setParams] at h
     by_cases hp : optPrefix kv = pfx
     · simp only [hp, bne_self_eq_false, Bool.false_eq_true, ↓reduceIte] at h
@@ -618,13 +602,12 @@ theorem set_params_no_half_write (fuel : Nat) (top : Kind) (pfx : Str) (opts : L
           ih st1 (setParams env cfg pr fuel top pfx rest st1).2.1 (by
             rcases hr : setParams env cfg pr fuel top pfx rest st1 with ⟨s2, u2, e2⟩
             simp only [hr] at h ⊢
-            rw [h.1, h.2.2]) hv'
+            rw [h.1, h.2.2])
         refine ⟨kv :: b, f, a, 1 :: u', by simp [hsplit], ?_⟩
         simp [setParams, hp, hs, hb]
       · simp only [hs, Prod.mk.injEq, Option.some.injEq] at h
         obtain ⟨rfl, -, rfl⟩ := h
-        have := no_half_write env cfg pr fuel top [] (optKey kv) (optValue kv) st st1 err hs he
-          (hv kv (by simp))
+        have := no_half_write env cfg pr fuel top [] (optKey kv) (optValue kv) st st1 err hs
         exact ⟨[], kv, rest, [], rfl, by simp [setParams, this]⟩
     · have hp' : (optPrefix kv != pfx) = true := by simpa using hp
       simp only [hp', ↓reduceIte, Prod.mk.injEq] at h
@@ -632,7 +615,7 @@ theorem set_params_no_half_write (fuel : Nat) (top : Kind) (pfx : Str) (opts : L
         ih st (setParams env cfg pr fuel top pfx rest st).2.1 (by
           rcases hr : setParams env cfg pr fuel top pfx rest st with ⟨s2, u2, e2⟩
           simp only [hr] at h ⊢
-          rw [h.1, h.2.2]) hv'
+          rw [h.1, h.2.2])
       refine ⟨kv :: b, f, a, 0 :: u', by simp [hsplit], ?_⟩
       simp [setParams, hp', hb]
 
@@ -662,52 +645,52 @@ theorem set_params_frame (fuel : Nat) (top : Kind) (pfx : Str) (opts : List Str)
       simp only [hp', ↓reduceIte]
       exact ih st hq'
 
-/-! ### Durations: components are summed onto the running value -/
+/-! ### Durations: components are summed onto the running value, inside the `int64` range -/
 
-theorem parseSingle_acc (res : Nat) (acc : Int) (s : Str) :
-    parseSingle cfg res pr acc s =
-      (parseSingle cfg res pr 0 s).map fun r => (acc + r.1, r.2) := by
-  unfold parseSingle
-  simp only
-  split
-  · simp [Except.map]
-  · split
-    · rfl
-    · rfl
-    · split
-      · rfl
-      · simp [Except.map]
+theorem parseSingle_range (res : Nat) (acc : Int) (s : Str) (a : Int) (rest : Str)
+    (hacc : repMin ≤ acc ∧ acc ≤ repMax) (h : parseSingle cfg res pr acc s = .ok (a, rest)) :
+    repMin ≤ a ∧ a ≤ repMax := by
+  unfold parseSingle at h
+  simp only at h
+  repeat' split at h
+  all_goals first
+    | (simp at h; done)
+    | (simp only [Except.ok.injEq, Prod.mk.injEq] at h
+       obtain ⟨rfl, -⟩ := h
+       first
+        | exact hacc
+        | (rename_i hd; exact ((durAdd_spec _ _ _ _ hacc).2 _ hd).2))
 
-/-- `parse_duration` adds to `t` a quantity that does not depend on `t`: the result is the
-    initial value plus the sum of the rounded components. -/
-theorem parseDuration_acc (res fuel : Nat) (acc : Int) (s : Str) :
-    parseDuration cfg res pr fuel acc s =
-      (acc + (parseDuration cfg res pr fuel 0 s).1, (parseDuration cfg res pr fuel 0 s).2) := by
+/-- **No silent overflow.**  Whatever the value string and the oracle, the count that
+    `parse_duration` leaves in `t` (return or throw) is a valid `int64`: a component that does not
+    fit is rejected (`out_of_range_duration_rejected`), never wrapped. -/
+theorem parseDuration_range (res fuel : Nat) (acc : Int) (s : Str)
+    (hacc : repMin ≤ acc ∧ acc ≤ repMax) :
+    repMin ≤ (parseDuration cfg res pr fuel acc s).1 ∧ (parseDuration cfg res pr fuel acc s).1 ≤ repMax := by
   induction fuel generalizing acc s with
-  | zero => cases s <;> simp [parseDuration]
+  | zero => cases s <;> simpa [parseDuration] using hacc
   | succ n ih =>
     cases s with
-    | nil => simp [parseDuration]
+    | nil => simpa [parseDuration] using hacc
     | cons c cs =>
       simp only [parseDuration]
-      rw [parseSingle_acc cfg pr res acc (c :: cs)]
-      cases hs : parseSingle cfg res pr 0 (c :: cs) with
-      | error e => simp [Except.map]
+      cases hs : parseSingle cfg res pr acc (c :: cs) with
+      | error e => simpa using hacc
       | ok r =>
         obtain ⟨a, rest⟩ := r
-        simp only [Except.map]
-        rw [ih (acc + a) rest, ih a rest]
-        simp [Int.add_assoc]
+        exact ih a rest (parseSingle_range cfg pr res acc _ a rest hacc hs)
 
 /-- One component: value `v` with unit `u` adds `round(v·u/res)` and continues after the unit. -/
 theorem parseDuration_component (res fuel : Nat) (acc : Int) (c : Char) (cs : Str) (v : R) (rest : Str) (u : Nat)
     (hne : ((c :: cs).dropWhile fun c => cfg.trim.contains c).isEmpty = false)
     (hv : pr ((c :: cs).dropWhile fun c => cfg.trim.contains c) = .ok v rest)
-    (hu : cfg.unit? (rest.takeWhile fun c => !cfg.stop.contains c) = some u) :
+    (hu : cfg.unit? (rest.takeWhile fun c => !cfg.stop.contains c) = some u)
+    (hacc : repMin ≤ acc ∧ acc ≤ repMax) (a : Int) (ha : durAdd u res v acc = some a) :
+    a = acc + chronoRound u res v ∧
     parseDuration cfg res pr (fuel + 1) acc (c :: cs) =
-      parseDuration cfg res pr fuel (acc + chronoRound u res v)
-        (rest.dropWhile fun c => !cfg.stop.contains c) := by
-  simp only [parseDuration, parseSingle, hne, hv, hu, Bool.false_eq_true, ↓reduceIte]
+      parseDuration cfg res pr fuel a (rest.dropWhile fun c => !cfg.stop.contains c) := by
+  refine ⟨((durAdd_spec u res v acc hacc).2 a ha).1, ?_⟩
+  simp only [parseDuration, parseSingle, hne, hv, hu, ha, Bool.false_eq_true, ↓reduceIte]
 
 end machinery
 
@@ -775,9 +758,8 @@ theorem round_core (x : ℚ) (t : Int)
 /-- **Rounded to the field's resolution.**  For a unit at least as coarse as the resolution
     (`res ∣ unit`, e.g. any unit into a `nanoseconds` field — the type of every `max_time`),
     `chronoRound` returns the integer nearest to `v·unit/res`, ties to even.  Exact arithmetic;
-    the binary64 run is tied by the correspondence, and the conversion of values that do not fit
-    `int64` is undefined behaviour in the C++ (excluded here by using `ℤ`; run on the real code:
-    known finding `C18:duration-overflow-accepted`). -/
+    the binary64 run is tied by the correspondence.  Values whose count does not fit `int64` never
+    reach the rounding (`durAdd_spec`, `out_of_range_duration_rejected`). -/
 theorem chrono_round_nearest_even (unitNs resNs : Nat) (v : ℚ) (hr : 0 < resNs) (hu : 0 < unitNs)
     (hd : resNs ∣ unitNs) :
     |v * unitNs / resNs - (chronoRound unitNs resNs v : ℚ)| ≤ 1 / 2 ∧
@@ -847,10 +829,13 @@ example : addressed env 8 (.struct "PANOCParams") [] "Lipschitz.delta".toList = 
 example : addressed env 8 (.struct "PANOCParams") [] "max_iter.x".toList =
     some (["max_iter"], .int 0 4294967295, ['x']) := by decide
 
-/-- enumerator by name over the generated enum table; the two known-missing ones are rejected -/
+/-- enumerator by name over the generated enum tables (incl. the nested `FailurePolicy`) -/
 example : (env.enumTable "PANOCStopCrit").find? (·.1.toList == "FPRNorm2".toList) = some ("FPRNorm2", 7) := by
   decide
-example : (env.enumTable "PANOCStopCrit").find? (·.1.toList == "Ipopt".toList) = none := by decide
+example : (env.enumTable "PANOCStopCrit").find? (·.1.toList == "Ipopt".toList) = some ("Ipopt", 8) := by
+  decide
+example : addressed env 8 (.struct "StructuredLBFGSDirectionParams") [] "failure_policy".toList =
+    some (["failure_policy"], .enum "StructuredLBFGSDirectionParams::FailurePolicy", []) := by decide
 
 /-- integer `from_chars`: value, suffix, range -/
 example : parseInt 0 4294967295 "12abc".toList = .ok 12 "abc".toList := by decide
@@ -869,6 +854,15 @@ example :
 example : chronoRound 1000000 1000000000 (1500 : ℚ) = 2 ∧ chronoRound 1000000 1000000000 (500 : ℚ) = 0 ∧
     chronoRound 1000000 1000000000 (2500 : ℚ) = 2 ∧ chronoRound 1000000 1000000000 (-1500 : ℚ) = -2 := by
   refine ⟨?_, ?_, ?_, ?_⟩ <;> (simp only [chronoRound, DurScalar.ofInt, DurScalar.trunc]; norm_num)
+
+/-- the range guard of `parse_single_duration` over exact arithmetic: an ordinary component is
+    added; `1e30h` into a ns field and a sum leaving the `int64` range are refused -/
+example : durAdd 1000000000 1 (5 : ℚ) 0 = some 5000000000 := by
+  simp only [durAdd, durCount, chronoRound, DurScalar.ofInt, DurScalar.trunc, repMin, repMax]; norm_num
+example : durAdd 3600000000000 1 ((10 : ℚ) ^ 30) 0 = none := by
+  simp only [durAdd, durCount, chronoRound, DurScalar.ofInt, DurScalar.trunc, repMin, repMax]; norm_num
+example : durAdd 1 1 (9000000000000000000 : ℚ) 9000000000000000000 = none := by
+  simp only [durAdd, durCount, chronoRound, DurScalar.ofInt, DurScalar.trunc, repMin, repMax]; norm_num
 
 end examples
 
